@@ -117,7 +117,9 @@ class Tensor:
                     )
             elif isinstance(s, Tensor):
                 if s.is_scalar:
-                    scalar_indices.append([s, s + 1, axis_, 1])
+                    # The slice [-1, 0) is empty: the last element is [-1, end of the axis).
+                    stop = shape[axis_] if s == -1 else s + 1
+                    scalar_indices.append([s, stop, axis_, 1])
                     to_squeeze.append(axis_)
                 else:
                     non_scalar_indices.append((axis_, s))
